@@ -7,7 +7,7 @@ from vlib.env import part
 from vlib.known import allowed, pick as pick_dev
 from vlib.sim import conc, concb, new_loop, SimTransport, generic_dev, Rec
 
-from harness.hist import run_history, describe, NA, K, PREFIX, SID, ROLE
+from harness.hist import run_history, describe, NA, K, PREFIX, SID, ROLE, LEASE
 from harness.c07_termination import _pad
 from rsocket.frame import CancelFrame, PayloadFrame, ErrorFrame, RequestNFrame
 from rsocket.frame_builders import to_request_stream_frame, to_request_n_frame, to_cancel_frame
@@ -54,7 +54,7 @@ def c_history(e1: int, e2: int, e3: int, e4: int, a1: bool, a2: bool, a3: bool, 
             devs.append('cancelled-awaitable-resolved-afterwards')
         after = [f for _, f in o.t.sent[sent_at:] if f.stream_id == SID]
         if role in ('rr_req', 'rs_req') and [f for f in after if not isinstance(f, CancelFrame)]:
-            devs.append('C09:%s:frame-after-own-CANCEL' % role)
+            devs.append('C09:lease:blocked-request-sent-after-cancel' if LEASE else 'C09:%s:frame-after-own-CANCEL' % role)
     elif cancels and role in ('rr_req', 'rs_req'):
         devs.append('CANCEL-sent-without-application-cancel')
     if o.inbound_cancel:
